@@ -21,7 +21,8 @@ RULE = ("schedule enumeration (E2): for each stream of 1..4 V3 packets (payload 
         "compared with a reference reassembler (a list): available exactly when the last byte arrived, once, in order, "
         "byte-identical. Streams <= 16 bytes: all 2^(n-1) segmentations. Wire seam: the same through an authenticated "
         "LAN.send with encrypted replies, checking the virtual instant at which send returns. Header sweep: every value of the pad/type byte x 4 magic "
-        "bytes x 3 sizes (boundaries depend on marker and size field only). "
+        "bytes x 3 sizes (boundaries depend on marker and size field only). Marker-free garbage prefixes of 255..70000 bytes. Pauses of 0.5 s .. 25 h "
+        "between the segments of a stream. "
         "state = (unframed remainder, packets delivered); transition = one segment fed")
 ASSUMPTIONS = ["segments are delivered in order (TCP)", "protocol-seam packets use the handshake-response type so that read() "
                "returns the raw body for arbitrary payload bytes; the wire seam uses real encrypted responses"]
@@ -62,6 +63,9 @@ BIG_SIZES = [2560, 2570, 2816, 3338, 247, 248, 249, 255, 256, 257, 503, 504, 505
 
 GARBAGE = [b"", b"\x00", b"\x83", b"\x70\x83", b"\x00\x83", b"\x5a\x5a\x01", b"\xff\x70\x83\x00", b"\x83\x83\x83\x83\x83",
            b"\x70\x70\x83\x71\x00\x83"]
+
+
+LONG_GARBAGE = [255, 256, 257, 258, 300, 512, 1000, 4096, 5000, 65535, 65536, 65544, 70000]
 
 
 def streams(tier) -> list[tuple[str, bytes]]:
@@ -124,6 +128,9 @@ def shards(tier):
         out.append(("sizesweep", lo, lo + 40))
     for lo in range(0, 256, 32):
         out.append(("hdrsweep", lo, lo + 32))
+    for i in range(len(LONG_GARBAGE)):
+        out.append(("longgarbage", i, 0))
+    out.append(("gaps", 0, 0))
     nparts = 8 if tier == "thorough" else 2
     for k in (1, 2, 3):
         for part in range(nparts):
@@ -175,8 +182,10 @@ def poll_any(proto) -> list:
             raise HarnessError("read(timeout=0) suspended")
 
 
-def feed(w: World, stream: bytes, cuts: tuple, st: Stats, case, expect_cache: dict, any_type: bool = False) -> bool:
-    """Feed one segmentation; compare after every segment.  Returns True if it agreed everywhere."""
+def feed(w: World, stream: bytes, cuts: tuple, st: Stats, case, expect_cache: dict, any_type: bool = False, gap: float = 0.0) -> bool:
+    """Feed one segmentation; compare after every segment.  Returns True if it agreed everywhere.
+
+    gap: seconds of (virtual) wall-clock and monotonic time that pass between two segments."""
     proto = _LanProtocolV3()
     conn = Conn(w.net, 0, IP, PORT, _NullPeer())
     conn.protocol = proto
@@ -185,6 +194,8 @@ def feed(w: World, stream: bytes, cuts: tuple, st: Stats, case, expect_cache: di
     delivered = 0
     for i in range(len(bounds_) - 1):
         end = bounds_[i + 1]
+        if gap and i:
+            w.loop.jump(gap)
         proto.data_received(stream[bounds_[i]:end])
         st.transitions += 1
         exp = expect_cache.get(end)
@@ -408,6 +419,47 @@ def run_sizesweep(st: Stats, lo: int, hi: int):
         w.close()
 
 
+def run_longgarbage(st: Stats, idx: int):
+    """Marker-free garbage prefixes far longer than a packet, in front of ordinary packets."""
+    L = LONG_GARBAGE[idx]
+    g = bytes(b if b not in (0x83,) else 0x84 for b in filler(f"c04/lg{L}", L))
+    w = World()
+    try:
+        for tail_marker in (False, True):
+            gg = g[:-1] + b"\x83" if tail_marker else g       # the garbage may end in the first marker byte
+            stream = gg + pkt(5, "lg-a", 2) + pkt(1, "lg-b") + pkt(0, "lg-c")
+            name = f"garbage{L}{'+83' if tail_marker else ''}"
+            case = {"kind": "longgarbage", "stream": name, "garbage_len": L}
+            cache = {}
+            n = len(stream)
+            for cuts in ((), (L - 1,), (L,), (L + 1,), (L + 7,), (256,), (257,), (L // 2, L + 3), (100, 200, L + 13), (n - 1,)):
+                cuts = tuple(sorted(set(c for c in cuts if 0 < c < n)))
+                ok = feed(w, stream, cuts, st, case, cache)
+                st.ev((name, cuts), "agree" if ok else "differ", True)
+    finally:
+        w.close()
+
+
+def run_gaps(st: Stats):
+    """Segments separated by long pauses: reassembly depends on the byte stream, not on when its pieces arrive."""
+    w = World()
+    try:
+        stream = pkt(20, "gp-a", 1) + pkt(7, "gp-b", 2) + pkt(33, "gp-c") + pkt(0, "gp-d")
+        n = len(stream)
+        cache = {}
+        for gap in (0.5, 6.0, 61.0, 3600.0, 90000.0):
+            for a in range(1, n, 3):
+                for b in (None, a + 5, a + 31, n - 2):
+                    cuts = tuple(sorted(set(c for c in (a, b) if c is not None and 0 < c < n)))
+                    case = {"kind": "gaps", "stream": "gaps", "gap": gap}
+                    ok = feed(w, stream, cuts, st, case, cache, gap=gap)
+                    st.ev(("gaps", gap, cuts), "agree" if ok else "differ", True)
+            ok = feed(w, stream, tuple(range(1, n)), st, {"kind": "gaps", "stream": "gaps", "gap": gap}, cache, gap=gap)
+            st.ev(("gaps", gap, "bytewise"), "agree" if ok else "differ", True)
+    finally:
+        w.close()
+
+
 def run_hdrsweep(st: Stats, lo: int, hi: int):
     """Every value of the pad/type byte x several magic bytes: packet boundaries depend on marker and size field only."""
     w = World()
@@ -437,6 +489,14 @@ def run_shard(shard, tier) -> Stats:
     kind = shard[0]
     if kind == "hdrsweep":
         run_hdrsweep(st, shard[1], shard[2])
+        st.traces = st.evaluations
+        return st
+    if kind == "longgarbage":
+        run_longgarbage(st, shard[1])
+        st.traces = st.evaluations
+        return st
+    if kind == "gaps":
+        run_gaps(st)
         st.traces = st.evaluations
         return st
     if kind == "sizesweep":
